@@ -98,6 +98,8 @@ type Contract struct {
 	Pure     bool // "pure": no modifies at all
 	EntryLemmas []LemmaCall
 	GhostFinal  []GhostStmt
+	GhostParams []string
+	Lets        []GhostStmt // entry parametrisation: lvalue = expr (substituted into the entry state)
 }
 
 var reEns = regexp.MustCompile(`^ensures(?:\[([^\]]+)\])?\s+(.*)$`)
@@ -326,6 +328,18 @@ func ParseContracts(file string) ([]*Contract, error) {
 				return nil, fail(err)
 			}
 			cur.EntryLemmas = append(cur.EntryLemmas, l)
+		case "ghost-param":
+			for _, v := range strings.Split(rest, ",") {
+				if v = strings.TrimSpace(v); v != "" {
+					cur.GhostParams = append(cur.GhostParams, v)
+				}
+			}
+		case "let":
+			g, err := parseGhost(rest)
+			if err != nil {
+				return nil, fail(err)
+			}
+			cur.Lets = append(cur.Lets, g)
 		case "ghost-final":
 			g, err := parseGhost(rest)
 			if err != nil {
